@@ -325,6 +325,10 @@ def groups(tier, seed):
     if chunk:
         yield {'cases': list(chunk)}
         chunk.clear()
+    # the shown value of an expression that also occurs in a WHERE arm which is skipped for some rows
+    uf = [e for e in p if not any(w in e for w in ('contains', 'replace', '{', 'plus', 'mul')) and ('size' in e or 'hardlinks' in e or 'name' in e)]
+    for i in range(0, len(uf), 6):
+        yield {'cases': [{'kind': 'under-filter', 'e': e, 'shape': sh, 'rd': rd} for e in uf[i:i + 6] for sh in range(4) for rd in ('sorted', 'rev')]}
     for a in COMPANY:
         yield {'cases': [{'kind': 'company', 'cols': [a, b]} for b in COMPANY if b != a] +
                         [{'kind': 'company', 'cols': [COMPANY[(COMPANY.index(a) + 1 + j * 3) % len(COMPANY)] for j in range(4)] + [a]}]}
@@ -368,6 +372,9 @@ def eval_group(env, group, tier):
             r = {'case': c, 'layer': kind + (':k=%d' % c['k'] if 'k' in c else '')}
             if kind == 'company':
                 outs.append(company(env, root, c, r, len(ents)))
+                continue
+            if kind == 'under-filter':
+                outs.append(under_filter(env, root, c, r, ents))
                 continue
             try:
                 if kind == 'value':
@@ -439,6 +446,40 @@ def eval_group(env, group, tier):
     finally:
         env.rmtree(root)
     return outs
+
+
+def under_filter(env, root, c, r, ents):
+    e = c['e']
+    r['nt'] = True
+    try:
+        vals = {x['name']: pool_value(e, x) for x in ents}
+    except ZeroDivisionError:
+        r.update(status='ok', sig=('div0',))
+        return r
+    vs = sorted(vals.values())
+    T = int(vs[len(vs) // 2])
+    shapes = [("hardlinks > 1 or %s > %d" % (e, T), lambda x, v: x['nlink'] > 1 or v > T),
+              ("name = 'bb' or name = 'k2' or %s < %d" % (e, T), lambda x, v: x['name'] in ('bb', 'k2') or v < T),
+              ("%s >= %d or hardlinks > 1" % (e, T), lambda x, v: v >= T or x['nlink'] > 1),
+              ("(name like 'h%%' and %s != %d) or name like '%%b'" % (e, T), lambda x, v: (x['name'].lower().startswith('h') and v != T) or x['name'].lower().endswith('b'))]
+    w, pred = shapes[c['shape']]
+    q = 'name, %s where %s into list' % (e, w)
+    o = env.run([q], cwd=root, preload=True, env={'FSX_READDIR': c['rd']})
+    rows = o.rows(2)
+    r['trans'] = len(ents)
+    want = {x['name']: vals[x['name']] for x in ents if pred(x, vals[x['name']])}
+    if o.timeout or o.rc != 0 or o.err or rows is None:
+        r.update(status='viol', cls='under-filter-status', detail=dict(o.brief(), query=q), sig=('err',))
+    elif sorted(n for n, _ in rows) != sorted(want):
+        r.update(status='viol', cls='where-expression', sig=('uf-rows',), detail={'query': q, 'got': sorted(n for n, _ in rows), 'expected': sorted(want)})
+    else:
+        bad = [(n, v, want[n]) for n, v in rows if fnum(v) is None or not close(fnum(v), want[n])]
+        if bad:
+            r.update(status='viol', cls='value-depends-on-filter', sig=('uf-value',),
+                     detail={'query': q, 'row': bad[0][0], 'got': bad[0][1], 'expected': bad[0][2], 'readdir': c['rd']})
+        else:
+            r.update(status='ok', sig=tuple(sorted(want)))
+    return r
 
 
 _ALONE = {}
